@@ -557,11 +557,11 @@ class Fn:
                     out[nm] = (defs[nm], rv)
         return out
 
-    def symexec(self, methods: bool = False, deep: bool = False, **kw):
+    def symexec(self, methods: bool = False, deep: bool = False, exclude=(), **kw):
         """Gated symbolic evaluator of this function, reading through the helpers `expand` reads through (with `methods`
         also through one-expression methods of the same class, `self.m(...)`; with `deep` through `deep_helpers()`)."""
         from fsa.gated import SymExec
-        hs = {k: v for k, v in self._pure_helpers().items() if methods or not k.startswith('self.')}
+        hs = {k: v for k, v in self._pure_helpers().items() if (methods or not k.startswith('self.')) and k not in exclude}
         if deep:
             hs.update(self.deep_helpers())
         return SymExec(self.fi.node, extra_helpers=hs, **kw)
